@@ -109,7 +109,7 @@ def run_check(prop, tier, seed, replay=None):
         inputs = []
         for c in prop.corpus():
             inputs.append(("corpus", c["input"] if isinstance(c, dict) and "input" in c else c))
-        n = _n_cases(prop, tier)
+        n = getattr(prop, "total_cases", None) or _n_cases(prop, tier)
         budget = prop.time_budget[tier]
         pending = []  # (inp, layer, op, impl)
         t_gen = time.time()
